@@ -532,7 +532,13 @@ def run_schedule(case):
     thr, tim = make_thread_shims(world)
     sink = ByteSink()
     options = spawn_options(verbose=case['verbose'], processes=case['n'])
-    layers = [('lay.L%d' % i, object, None) for i in range(case['k'])]
+    class _Tests:                      # what resume_tests is handed per layer: a suite (later layers own MORE tests here)
+        def __init__(self, n):
+            self.n = n
+
+        def countTestCases(self):
+            return self.n
+    layers = [('lay.L%d' % i, object, _Tests(i + 1)) for i in range(case['k'])]
     failures, errors, skipped = [], [], []
     exc = None
     ret = None
